@@ -277,7 +277,7 @@ class C08:
                 "Ogorek.C08_get_after_set", "Ogorek.C08_K2_witness", "Ogorek.C08_get_after_del", "Ogorek.C08_frame_del",
                 "Ogorek.C08_frame_set", "Ogorek.C08_get_frame", "Ogorek.C08_len_del", "Ogorek.C08_len_set", "Ogorek.C08_len_set_inv",
                 "Ogorek.C08_len_bound", "Ogorek.C08_entries_from_sets", "Ogorek.C08_get_set_same", "Ogorek.C08_get_set_hashable",
-                "Ogorek.C08_get_from_sets", "Ogorek.C08_match_unique_noBS"]
+                "Ogorek.C08_get_from_sets", "Ogorek.C08_match_unique_noBS", "Ogorek.C08_get_after_set_noBS"]
     trusted_base = TB_COMMON + ["gomap.Map refines the abstract table (Delete/Get act on SOME entry equal to the key; which one is "
                                 "universally quantified) — justified by C07_hash + C07_symm, not by a proof about gomap's buckets"]
     level_text = ("Lean theorems for EVERY history and EVERY way the table resolves its choices (`pick`): Del's loop removes exactly the "
@@ -286,7 +286,8 @@ class C08:
                   "operation list), Len = number of entries Iter yields (C08_len_iter), Get returns the value of an entry equal to the "
                   "query (C08_get_any), unique when equality is transitive around the query (C08_match_unique) — proved for every query holding no ByteString "
                   "(C08_match_unique_noBS, from C07_trans), and right after Set it is "
-                  "the value just set (C08_get_after_set); for a NaN-free key, Get k right after Set k v is v outright (C08_get_set_same, C08_get_set_hashable for every key the Dict accepts, from C07_refl); right after Del it is nothing (C08_get_after_del); Set / Del of a key leave the "
+                  "the value just set (C08_get_after_set; for EVERY query equal to the key that holds no ByteString, with no side condition: "
+                  "C08_get_after_set_noBS); for a NaN-free key, Get k right after Set k v is v outright (C08_get_set_same, C08_get_set_hashable for every key the Dict accepts, from C07_refl); right after Del it is nothing (C08_get_after_del); Set / Del of a key leave the "
                   "candidates of every unrelated query untouched, so its Get is unchanged (C08_frame_set, C08_frame_del, C08_get_frame); Len "
                   "moves by exactly the number of entries equal to the key (C08_len_del, C08_len_set, C08_len_set_inv); after any history Len is at most the number of Sets and every stored entry is "
                   "the key and value of some Set of the history (C08_len_bound, C08_entries_from_sets, by induction over the history), so whatever Get q returns was set by a Set of the "
